@@ -32,6 +32,12 @@ def cases() -> List[Tuple[str, E.Image, bytes]]:
         out.append((f'unaligned-w{w}', E.Image(w, [(0, 12, [6 * w, 2 * w + 3, 0, 0, 0, 0, 0, 0, 0, 0, 0, 0])]), b''))
     # w = 64: a word equal to the flat fill constant, in and out of segments
     magic = 0xBB67AE8584CAA73B
+    for w in (16, 32, 64):
+        # F15: overlapping segments (accepted by the reader): word 200 lies only in the wide range [120,300), which a
+        # binary search over ranges sorted by start does not find behind the narrow ones
+        ov = E.Image(w, [(0, 100, [200 * w, 6 * w, 0, 0, 0, 0, 200 * w + 1, 6 * w]), (120, 180, []), (130, 10, []), (150, 10, []), (170, 10, [])])
+        ov.overlapping = True  # type: ignore[attr-defined]
+        out.append((f'overlapping-segments-w{w}', ov, b''))
     out.append(('w64-magic-data', E.Image(64, [(0, 8, [3 * 64, 2 * 64, magic, 4 * 64 + 1, 0, 4 * 64]), (12, 2, [magic, magic])]), b''))
     return out
 
